@@ -82,6 +82,12 @@ def check_history(sc, r):
                                   "detail": {"plant": sid, "tau": tau, "agent": agent,
                                              "agent_tau": open_agent_tau[agent], "q": q}})
                 nd = next_due.get(agent)
+                if agent not in open_agent and nd is not None and nd == t and nd < until \
+                        and gpath[agent] == gpath[sid] and tau is not None and any(x > 0 for x in tuple(tau)[1:]):
+                    # same group: a later sub-step of the plant's time step t is "later than t" too - the
+                    # agent's step at t (sub-time 0) comes first
+                    viols.append({"kind": "plant_overtakes_pending_agent_step", "features": {"substep": True},
+                                  "detail": {"plant": sid, "tau": tau, "agent": agent, "agent_due": nd, "q": q}})
                 if agent not in open_agent and nd is not None and nd < t and nd < until:
                     viols.append({"kind": "plant_overtakes_pending_agent_step", "features": {},
                                   "detail": {"plant": sid, "time": t, "agent": agent, "agent_due": nd, "q": q}})
